@@ -38,6 +38,11 @@
 (*  15 FORGE: replace the whole document by one built under the all-zero file *)
 (*     key: header MAC under HKDF(K0, header), every segment sealed under     *)
 (*     HKDF(K0, np, payload), same shape, attacker's plaintext, garbage wfk   *)
+(*  16 (first op only) the honest caller first decrypts the HONEST document    *)
+(*     through its caching key provider - a provider that keeps the file key  *)
+(*     in memory and hands out the same bytes on every unwrap                 *)
+(* The attacker knows the all-zero key "K0".  `cache` is what the provider    *)
+(* holds: the honest unwrap (no op 14) returns it.                            *)
 (* Document B has two units; variant 1: same file key, other nonce prefix;    *)
 (* 2: other key, same prefix; 3: both differ.                                 *)
 (* Source failure: the reader fails after `failAt` payload cells (0 = right   *)
@@ -50,12 +55,14 @@ EXTENDS EncTamperContract, Integers, TLC
 CONSTANTS MaxSegs,        \* honest documents have 0..MaxSegs segments, the last one short or full
           MaxOps,         \* adversary operations per behaviour
           MaxOpsFail,     \* ... when the source also fails
-          Defect,         \* "none" | "nolastbind" | "release-first" | "swallow" | "zero-key-accepted" (a failed unwrap is
+          Defect,         \* "none" | "nolastbind" | "release-first" | "swallow" | "wipes-unwrapped-key" (Decrypt clears the slice
+                          \* the unwrap callback returned, i.e. the provider's cached key) | "double-put" (the rejection path gives the
+                          \* pooled buffer back twice) | "zero-key-accepted" (a failed unwrap is
                           \* forgotten once the fallback key is in place: a document forged under that key passes the MAC check)
           Export          \* TRUE: print one SCRIPT line per terminal state (replayed on the real code)
 
-VARIABLES nA, lastFull, hdr, ukey, ufail, units, ops, failAt, withData, phase, i, released, term, c
-vars == <<nA, lastFull, hdr, ukey, ufail, units, ops, failAt, withData, phase, i, released, term, c>>
+VARIABLES nA, lastFull, hdr, ukey, ufail, cache, units, ops, failAt, withData, phase, i, released, term, c
+vars == <<nA, lastFull, hdr, ukey, ufail, cache, units, ops, failAt, withData, phase, i, released, term, c>>
 
 F == 3
 RECURSIVE Feed(_, _)
@@ -82,13 +89,14 @@ InsertAfter(s, j, x) == SubSeq(s, 1, j) \o <<x>> \o SubSeq(s, j + 1, Len(s))
 
 Init ==
   /\ nA \in 0..MaxSegs /\ lastFull \in BOOLEAN /\ (nA = 0 => lastFull = FALSE)
-  /\ hdr = "ok" /\ ukey = "KA" /\ ufail = FALSE /\ units = OrigUnits(nA, lastFull) /\ ops = <<>>
+  /\ hdr = "ok" /\ ukey = "KA" /\ ufail = FALSE /\ cache = "KA" /\ units = OrigUnits(nA, lastFull) /\ ops = <<>>
   /\ failAt = -1 /\ withData = FALSE /\ phase = "mutate" /\ i = 0 /\ released = <<>> /\ term = "none"
   /\ c = Dummy
 
 Op(code, a, b, h2, k2, u2) ==
   /\ hdr' = h2 /\ ukey' = k2 /\ units' = u2 /\ ops' = Append(ops, <<code, a, b>>)
   /\ ufail' = (ufail \/ (code = 14 /\ a >= 2))
+  /\ cache' = IF code = 16 /\ Defect = "wipes-unwrapped-key" THEN "K0" ELSE cache     \* scheme.go: clear(fileKeyBytes)
   /\ UNCHANGED <<nA, lastFull, failAt, withData, phase, i, released, term, c>>
 
 N == Len(units)
@@ -107,14 +115,19 @@ Mutate ==
      \/ \E a \in 1..N : \E j \in 1..2 : \E v \in 1..3 : Op(12, a, 10 * j + v, hdr, ukey, [units EXCEPT ![a] = BUnit(j, v)])
      \/ \E j \in 1..2 : \E v \in 1..3 : Op(13, j, v, hdr, ukey, Append(units, BUnit(j, v)))
      \/ /\ ukey = "KA" /\ ~ufail /\ \E a \in 1..5 : Op(14, a, 0, hdr, IF a \in {2, 3, 4} THEN "K0" ELSE "KX", units)
-     \/ /\ ops = <<>> /\ Op(15, 0, 0, "forged0", ukey, [j \in 1..nA |-> Seal("K0", "NA", j - 1, j = nA, 200 + j, OrigUnits(nA, lastFull)[j].len)])
+     \/ /\ ops = <<>> /\ Op(16, 0, 0, hdr, ukey, units)
+     \/ /\ ops \in {<<>>, << <<16, 0, 0>> >>} /\ Op(15, 0, 0, "forged0", ukey, [j \in 1..nA |-> Seal("K0", "NA", j - 1, j = nA, 200 + j, OrigUnits(nA, lastFull)[j].len)])
 
 Mutated == hdr # "ok" \/ ukey # "KA" \/ units # OrigUnits(nA, lastFull)
 Forged == hdr = "forged0"
+(* what the unwrap callback hands to Decrypt: the provider's cached bytes unless op 14 substituted the outcome *)
+UKey == IF ukey = "KA" THEN cache ELSE ukey
+(* the provider's bytes after the Decrypt under test returned (it called the honest unwrap iff the header was readable) *)
+CacheAfter == IF Defect = "wipes-unwrapped-key" /\ ukey = "KA" /\ failAt # -2 /\ hdr \in {"ok", "mac", "forged0"} THEN "K0" ELSE cache
 (* the header is accepted iff scheme line and manifest are intact and the MAC verifies under the key in use; the   *)
 (* repaired Decrypt additionally returns an error after the MAC check whenever the unwrap callback had failed    *)
-HeaderAccepted == /\ \/ hdr = "ok" /\ ukey = "KA"
-                     \/ hdr = "forged0" /\ ukey = "K0"
+HeaderAccepted == /\ \/ hdr = "ok" /\ UKey = "KA"
+                     \/ hdr = "forged0" /\ UKey = "K0"
                   /\ (ufail => Defect = "zero-key-accepted")
 HeaderOnly == hdr \notin {"cut", "forged0"} /\ units = <<>> /\ nA > 0      \* nothing but a (complete) header is left of a non-empty message
 
@@ -125,12 +138,13 @@ Start ==
        /\ failAt' = fa /\ withData' \in (IF fa >= 1 THEN BOOLEAN ELSE {FALSE})
        /\ c' = CReset([class |-> "model", len |-> nA, mutated |-> Mutated, headerOnly |-> HeaderOnly, forged |-> Forged])
   /\ phase' = "header"
-  /\ UNCHANGED <<nA, lastFull, hdr, ukey, ufail, units, ops, i, released, term>>
+  /\ UNCHANGED <<nA, lastFull, hdr, ukey, ufail, cache, units, ops, i, released, term>>
 
 Finish(t, evs) ==
   /\ term' = t /\ phase' = "done"
-  /\ c' = Feed(c, evs \o <<[ev |-> "end", term |-> t, released |-> Len(released), equal |-> released = Orig]>>)
-  /\ UNCHANGED <<nA, lastFull, hdr, ukey, ufail, units, ops, failAt, withData, i, released>>
+  /\ c' = Feed(c, evs \o <<[ev |-> "end", term |-> t, released |-> Len(released), equal |-> released = Orig],
+                              [ev |-> "keycheck", intact |-> CacheAfter = "KA"]>>)
+  /\ UNCHANGED <<nA, lastFull, hdr, ukey, ufail, cache, units, ops, failAt, withData, i, released>>
 
 (* scheme.go:196-236 readHeader, manifest, unwrap, MAC *)
 Header ==
@@ -138,7 +152,7 @@ Header ==
   /\ IF failAt = -2 THEN Finish("decrypt-err", <<[ev |-> "srcerr"], [ev |-> "decrypt", err |-> TRUE]>>)
      ELSE IF ~HeaderAccepted THEN Finish("decrypt-err", <<[ev |-> "decrypt", err |-> TRUE]>>)
      ELSE /\ phase' = "loop" /\ c' = Feed(c, <<[ev |-> "decrypt", err |-> FALSE]>>)
-          /\ UNCHANGED <<nA, lastFull, hdr, ukey, ufail, units, ops, failAt, withData, i, released, term>>
+          /\ UNCHANGED <<nA, lastFull, hdr, ukey, ufail, cache, units, ops, failAt, withData, i, released, term>>
 
 (* the unit a piece coincides with, or Garbage *)
 Piece(from, to) ==
@@ -146,7 +160,7 @@ Piece(from, to) ==
     THEN units[CHOOSE j \in 1..N : StartOf(j) = from /\ StartOf(j) + units[j].len = to]
     ELSE Garbage(to - from, FALSE)
 Opens(u, ctr, last) ==
-  /\ u.k = "seal" /\ u.key = ukey /\ u.np = "NA" /\ u.ctr = ctr
+  /\ u.k = "seal" /\ u.key = UKey /\ u.np = "NA" /\ u.ctr = ctr
   /\ (u.last = last \/ Defect = "nolastbind")
 
 (* one iteration of processSegments + DecryptSegment (scheme.go:260-333, filekey.go:195-222) *)
@@ -165,10 +179,10 @@ Loop ==
                IF Opens(u, i, FALSE)
                  THEN /\ released' = Append(released, u.data) /\ i' = i + 1
                       /\ c' = Feed(c, <<[ev |-> "release", n |-> 1, prefixOK |-> IsPrefix(Append(released, u.data), Orig)]>>)
-                      /\ UNCHANGED <<nA, lastFull, hdr, ukey, ufail, units, ops, failAt, withData, phase, term>>
+                      /\ UNCHANGED <<nA, lastFull, hdr, ukey, ufail, cache, units, ops, failAt, withData, phase, term>>
                  ELSE IF Defect = "release-first"
                    THEN Finish("err", <<[ev |-> "release", n |-> 1, prefixOK |-> FALSE]>>)
-                   ELSE Finish("err", <<>>)
+                   ELSE Finish("err", <<[ev |-> "pool", twice |-> Defect = "double-put"]>>)       \* scheme.go:326-330
         ELSE IF fails THEN Finish("err", <<[ev |-> "srcerr"]>>)                               \* :286-290
         ELSE IF avail <= 0 THEN Finish(IF i = 0 THEN "eof" ELSE "err",                           \* :311-318
                                        IF failAt >= 0 THEN <<[ev |-> "srcerr"]>> ELSE <<>>)
@@ -178,8 +192,9 @@ Loop ==
                     /\ c' = Feed(c, (IF failAt >= 0 THEN <<[ev |-> "srcerr"]>> ELSE <<>>) \o
                                      <<[ev |-> "release", n |-> 1, prefixOK |-> IsPrefix(Append(released, u.data), Orig)],
                                        [ev |-> "end", term |-> "eof", released |-> Len(released) + 1,
-                                        equal |-> Append(released, u.data) = Orig]>>)
-                    /\ UNCHANGED <<nA, lastFull, hdr, ukey, ufail, units, ops, failAt, withData, i>>
+                                        equal |-> Append(released, u.data) = Orig],
+                                       [ev |-> "keycheck", intact |-> CacheAfter = "KA"]>>)
+                    /\ UNCHANGED <<nA, lastFull, hdr, ukey, ufail, cache, units, ops, failAt, withData, i>>
                ELSE Finish("err", IF failAt >= 0 THEN <<[ev |-> "srcerr"]>> ELSE <<>>)
 
 Next == Mutate \/ Start \/ Header \/ Loop
@@ -191,6 +206,7 @@ OnlyNamedDeviation == IsBad(c) => c.why = HeaderOnlyWhy
 Strict == ~IsBad(c)
 ReleasedIsPrefix == IsPrefix(released, Orig)
 CleanMeansEqual == (phase = "done" /\ term = "eof") => (released = Orig \/ HeaderOnly) /\ failAt < 0
+CacheIntact == cache = "KA" /\ (phase = "done" => CacheAfter = "KA")
 SourceErrorSurfaces == (phase = "done" /\ failAt # -1) => term # "eof"
 
 (* one line per terminal state: the script and the model's prediction *)
